@@ -69,6 +69,8 @@ class RunAnalysis:
                 if f_[0] == "call":
                     scripts.setdefault((f_[1], f_[2]), set()).add((f_[3], f_[4]))
         impure = any(len(v) > 1 for v in scripts.values())
+        step_pos = {}        # thread -> positions of the lookup / store-write steps of its current call on the hot cache
+        hot_steps = []       # (lookup position, store-write position or None, thread, key, execs, returned value)
         started = {}         # thread -> position of the S event of its current op
         hot_calls = []       # (start position, end position, thread, key, execs, returned value) of calls on the hot cache
         invs = []            # (start, end, "clear" | "cond", mask) of invalidations that address the hot cache
@@ -82,12 +84,22 @@ class RunAnalysis:
                 cur_op[t] = body.split("_")
                 trace[t] = []
                 held.setdefault(t, [])
+                step_pos[t] = {"read": None, "store": None}
             elif kind == "A":
                 site, ln, mode, own = body.split(":")
                 site, ln = int(site), int(ln)
                 if site == 9000:
                     ev("body-preemption-point")      # the harness's own yield inside a function body: not a lock
                     continue
+                # where the LOOKUP and the STORE-WRITE of a call take effect (threads run one at a time between yield points, so
+                # event positions are a total order of the steps): sync lookup = the read-lock acquisition of `get` (1001), sync
+                # store = the write-lock acquisition of `insert` / `insert_with_memory` (1008 / 1015), async store = the queue-mutex
+                # acquisition of the insert (2003 / 2004); the async lookup happens right after the call starts
+                if t in step_pos and own == str(hot):
+                    if site == 1001 and step_pos[t]["read"] is None:
+                        step_pos[t]["read"] = pos
+                    if site in (1008, 1015, 2003, 2004):
+                        step_pos[t]["store"] = pos
                 lname, is_held, _ = self.sites.get(site, ("?", False, ""))
                 op = cur_op.get(t, ["?"])
                 c = 0
@@ -137,6 +149,9 @@ class RunAnalysis:
                         ev("concurrent-call")
                         if fi == hot:
                             hot_calls.append((started.get(t, pos), pos, t, mm.group(1), int(mm.group(3)), mm.group(2)))
+                            sp = step_pos.get(t, {})
+                            rpos = sp.get("read") if not s["is_async"] else started.get(t, pos)
+                            hot_steps.append((rpos, sp.get("store"), t, mm.group(1), int(mm.group(3)), mm.group(2)))
                         if mm.group(2) != mm.group(4) and not impure:
                             fail("C18", f"call {' '.join(op)} on thread {t} returned {mm.group(2)[:40]}, the function's value for these arguments is {mm.group(4)[:40]}", replay)
                     elif "PANIC" in body:
@@ -199,6 +214,32 @@ class RunAnalysis:
                     else:
                         fail("C01", f"cache {hs['name']}: the call for key {key[:24]} on thread {t} was served from the cache although no call had stored a value for these arguments "
                                     f"(schedule [{sched}])", replay)
+        # C01 under concurrency, "once the value stored for some arguments has been replaced the old value is never served again"
+        # (last store wins at the granularity of the real steps): a call served from the cache returns the value of a store-write
+        # for its key that precedes its lookup and is not followed, before that lookup, by a store-write of ANOTHER value for the
+        # key.  (Needs impure bodies to bite: the calls-only programs give every thread its own value per key.)
+        if not hs["thread"] and not hs["inv_on"] and not hs["cache_if"]:
+            writes = {}
+            if iline:
+                for part in iline[2:].split("|")[0].split("@"):
+                    if part.startswith(f"{hot}:g=") and part != f"{hot}:g=-":
+                        for ent in part.split("=", 1)[1].split("#")[0].split(";"):
+                            if ent:
+                                k_, _, r_ = ent.partition("=")
+                                writes.setdefault(k_, []).append((-1, r_.split(",")[0]))
+            for (rp, sp_, t_, key, ex, ret) in hot_steps:
+                if ex == 1 and sp_ is not None and not (hs["is_result"] and ret.startswith(macro_stream.HEX_ERR)):
+                    writes.setdefault(key, []).append((sp_, ret))
+            for (rp, sp_, t_, key, ex, ret) in hot_steps:
+                if ex != 0 or rp is None:
+                    continue
+                ws = sorted(w for w in writes.get(key, []) if w[0] < rp)
+                if not ws:
+                    continue                     # no known source: the legitimate-source monitor above speaks
+                ev("served-value-vs-latest-store-checked")
+                if ws[-1][1] != ret and any(v == ret for (_, v) in ws):
+                    fail("C01", f"cache {hs['name']}: the call for key {key[:24]} on thread {t_} was served {ret[:24]}, a value that had been REPLACED: the latest "
+                                f"store-write for these arguments before its lookup stored {ws[-1][1][:24]} (an old value was served again; schedule [{sched}])", replay)
         plain = (hs["limit"] is None and hs["maxmem"] is None and hs["ttl"] is None and not hs["cache_if"] and not hs["inv_on"]
                  and not hs["is_result"])
         if calls_only and plain and not hs["thread"]:
